@@ -315,6 +315,50 @@ def cross_matrix(ctx, o_x, first_only=False):
             chk(name + ":text-secret", obs == (True, True, True, True, True, True, False), inp, obs, "same string; each verifies the other's, text and UTF-8 bytes alike")
         if fails and first_only:
             return fails
+    # ---- a bcrypt salt carries a cost of its own: whatever cost the hasher was built with, the string it returns must describe the digest
+    #      it holds (verifies under both libraries)
+    for name, mk, cl, rs, _mksalt in pairs:
+        if not name.startswith("bcrypt"):
+            continue
+        for a, bb in ((4, 5), (5, 4), (4, 6)):
+            secret = rand_secret(rng).replace(b"\x00", b"\x01")[:40]
+            inp = {"op": "salt-of-other-cost", "format": name, "hasher_rounds": a, "salt_rounds": bb, "secret": secret.hex()}
+            try:
+                hs = mk(a).hash(secret, salt=bcrypt_pkg.gensalt(rounds=bb))
+                obs = (mk(a).verify(hs, secret), mk(bb).verify(hs, secret), cl.verify(secret, hs), mk(a).verify(hs, secret + b"x"))
+            except Exception as e:  # noqa: BLE001
+                obs = errname(e) + ": " + str(e)[:100]
+            chk(name + ":salt-of-other-cost", obs == (True, True, True, False), dict(inp, hash=locals().get("hs")), obs, (True, True, True, False))
+    # ---- strings next to a hash (a stored line that was not stripped, a cut or extended field): libpass may accept one only if passlib does
+    for name, mk, cl, rs, mksalt in pairs:
+        r = rs[0]
+        lp = mk(r)
+        secret = b"pw-" + bytes([65 + rng.randrange(26)])
+        try:
+            hs = lp.hash(secret) if name.startswith("bcrypt") else lp.hash(secret, salt=mksalt())
+        except Exception:  # noqa: BLE001
+            continue
+        muts = [hs + "\n", hs + "\r\n", hs + "\r", hs + " ", " " + hs, "\n" + hs, hs + "\x00", hs + "\t", hs + "\x0b", hs + "\x0c", hs + "\x1c", hs + "\x85", hs + "\u2028", hs + "a", hs + ".",
+                hs + "$", hs[:-1], hs + "\n\n", hs.replace("$", "$\n", 1)]
+        for m in muts:
+            inp = {"op": "near-hash", "format": name, "string": m, "secret": secret.hex()}
+            try:
+                lv = lp.verify(m, secret)
+            except Exception as e:  # noqa: BLE001
+                lv = errname(e)
+            try:
+                pv = cl.verify(secret, m)
+            except Exception as e:  # noqa: BLE001
+                pv = errname(e)
+            try:
+                ln = lp.needs_update(m)
+            except Exception as e:  # noqa: BLE001
+                ln = errname(e)
+            # accepted by libpass => accepted by passlib (what either library answers for a string neither accepts is not constrained here)
+            ok = not (lv is True and pv is not True)
+            chk(name + ":near-hash", ok, inp, {"libpass_verify": lv, "libpass_needs_update": ln, "passlib_verify": pv}, "libpass accepts only what passlib accepts")
+        if fails and first_only:
+            return fails
     for name, mk, cl, rs, mksalt in pairs:
         for _ in range(4 if not ctx.thorough else 40):
             r = rng.choice(rs)
